@@ -62,7 +62,8 @@ int main()
     DirParam* dir = DirParam::create(npas, dpas, toldis, tolang, 0, 0, bench, cylrad, 0., VectorDouble(), codir);
     if (dir == nullptr) { delete db; continue; }
     VarioParam vp; vp.addDir(*dir);
-    Vario* vario = Vario::computeFromDb(vp, db, ECalcVario::VARIOGRAM);
+    bool order4 = rng.coin(0.25);
+    Vario* vario = Vario::computeFromDb(vp, db, order4 ? ECalcVario::ORDER4 : ECalcVario::VARIOGRAM);
     if (vario != nullptr)
     {
       double psmin = GeometryHelper::getCosineAngularTolerance(tolang);
@@ -73,13 +74,13 @@ int main()
       for (int a = 0; a < nvar; a++) for (int b = 0; b <= a; b++)
       {
         VectorDouble sw = vario->getSwVec(0, a, b, false), hh = vario->getHhVec(0, a, b, false), gg = vario->getGgVec(0, a, b, false, false, false);
-        printf("v vario ndim=%d nvar=%d nech=%d X=%s Z=%s W=%s act=%s codir=%s psmin=%s bench=%s cylrad=%s npas=%d dpas=%s toldis=%s ivar=%d jvar=%d => sw=%s hh=%s gg=%s\n",
-               ndim, nvar, nech, vecD(xs).c_str(), vecDNA(zs).c_str(), vecDNA(ws).c_str(), act.c_str(), vecD(cd).c_str(), dy(psmin).c_str(),
+        printf("v vario calc=%s ndim=%d nvar=%d nech=%d X=%s Z=%s W=%s act=%s codir=%s psmin=%s bench=%s cylrad=%s npas=%d dpas=%s toldis=%s ivar=%d jvar=%d => sw=%s hh=%s gg=%s\n",
+               order4 ? "order4" : "variogram", ndim, nvar, nech, vecD(xs).c_str(), vecDNA(zs).c_str(), vecDNA(ws).c_str(), act.c_str(), vecD(cd).c_str(), dy(psmin).c_str(),
                dyNA(bench).c_str(), dyNA(cylrad).c_str(), npas, dy(dpas).c_str(), dy(toldis).c_str(), a, b,
                vecD(sw).c_str(), vecDNA(hh).c_str(), vecDNA(gg).c_str());
         st.hit(a == b ? "direct_variograms" : "cross_variograms");
       }
-      st.hit("ndim" + std::to_string(ndim)); if (!W.empty()) st.hit("weights"); if (!sel.empty()) st.hit("selection");
+      st.hit("ndim" + std::to_string(ndim)); if (order4) st.hit("order4"); if (!W.empty()) st.hit("weights"); if (!sel.empty()) st.hit("selection");
       if (!FFFF(bench)) st.hit("bench"); if (!FFFF(cylrad)) st.hit("cylinder"); if (tolang < 90.) st.hit("angular_tolerance");
       delete vario;
     }
